@@ -377,7 +377,7 @@ def place_adversarial_blocks(ch, frames):
 
 def continuation_flood(ch, sid):
     """HEADERS without END_HEADERS followed by many CONTINUATION frames with empty or tiny fragments."""
-    n = ch.pick([63, 64, 65, 66, 200, 1200, 3000])
+    n = ch.pick([63, 64, 65, 66, 70, 200, 1200, 3000])
     blk = raw_block(REQ if ch.bool() else [(b':status', b'200')])
     out = [wire.headers(sid, blk if ch.bool() else b'', end_stream=ch.bool(), end_headers=False)]
     frag = ch.pick([b'', b'', b'\x82'])
